@@ -170,3 +170,26 @@ mod tests {
         assert_eq!(b.read_byte(0x000F), 0x00);
     }
 }
+
+#[cfg(zilogz80_verif)]
+impl Bus {
+    /// Borrows the backing store (verification harnesses only).
+    pub fn verif_mem(&self) -> &[u8] {
+        &self.address_space
+    }
+
+    /// Mutably borrows the backing store, bypassing the ROM guard (verification harnesses only).
+    pub fn verif_mem_mut(&mut self) -> &mut [u8] {
+        &mut self.address_space
+    }
+
+    /// Declared ROM range, if any (verification harnesses only).
+    pub fn verif_rom(&self) -> Option<(u16, u16)> {
+        self.rom_space.as_ref().map(|r| (r.start, r.end))
+    }
+
+    /// Removes the ROM declaration (verification harnesses only).
+    pub fn verif_clear_rom(&mut self) {
+        self.rom_space = None;
+    }
+}
